@@ -491,9 +491,11 @@ def cases_c03(ck, it, n):
     g = it['g']
     dv = gen_grammar.Deriver(g, ck.rng)
     alphabet = [t for t in g.tokens if t not in g.skip]
-    s = dv.derive(g.start)[:40]
-    for i in range(len(s) + 1):
-        cs.append((g.start, s[:i], '1'))
+    for e in [g.start] + list(g.parts):
+        s = dv.derive(e)[:40]
+        for i in range(len(s) + 1):
+            cs.append((e, s[:i], '1'))
+        cs.append((e, [ck.rng.choice(alphabet) for _ in range(ck.rng.randint(1, 6))], '0'))
     for t in ck.rng.sample(alphabet, min(3, len(alphabet))):
         cs.append((g.start, [t] * 200, '0'))
     cs.append((g.start, [ck.rng.choice(alphabet + ['Error'] + list(g.skip)) for _ in range(150)], '01'))
@@ -503,13 +505,14 @@ def cases_c03(ck, it, n):
 def check_C03(work, args):
     tree_check(work, 'C03', oracles.oracle_c03,
                'totality: K3 correspondence (Exec.v on the translated program vs the compiled parser, incl. fuel exhaustion vs watchdog) + catch_unwind/watchdog oracle',
-               cases_fn=cases_c03, with_k1=False, prefilter=oracles.productive, n_quick=(40, 40), n_thorough=(500, 120))
+               gen_opts=dict(parts=0.7, nrules=(2, 6)), cases_fn=cases_c03, with_k1=False, prefilter=oracles.productive,
+               n_quick=(40, 30), n_thorough=(500, 120))
 
 
 def check_C04(work, args):
     tree_check(work, 'C04', oracles.oracle_c04,
                'no diagnostic iff sentence: K3 correspondence + Earley membership / prioritised reference interpreter',
-               gen_opts=dict(pred_true_only=True, assertion=0.0), with_k1=False, maxlen=16,
+               gen_opts=dict(pred_true_only=True, assertion=0.0, choice=0.5, nrules=(2, 5)), with_k1=False, maxlen=16,
                prefilter=lambda it: not ({'pred_user', 'assert'} & oracles.grammar_features(it['res']['dump'])))
 
 
